@@ -19,7 +19,7 @@ RULE = ('Engine A: lattice of experiment frames (5 shapes x noise patterns x n_p
         'geo, unassigned-period dates, 3 row orders, custom column names / group labels, custom non-monotone period labels, and the analysis object in a NON-INITIAL state: already fitted to another experiment and asked for its reports) x summary settings (level in '
         '{0.2,0.5,0.8,0.9,0.95} x tails x threshold in {0,+-c} x rescale in {0.5,1,4} x report in {last,all}; quick uses '
         'a 32-setting sub-grid, thorough all 180). Oracle: degrees of freedom, location and scale on EVERY analysed '
-        'day against the closed form (OLS + Kerman 2017 eq. 5); every layout variant gives the identical distribution; '
+        'day against the closed form (OLS + Kerman 2017 eq. 5), also through causal_cumulative_distribution(time, rescale) for every combination of day index in {0, middle, last, -1} x rescale in {1, 0.25, 3}; every layout variant gives the identical distribution; '
         'summary rows: lower = ppf(alpha), upper = ppf(1-alpha) or +inf, precision = estimate - lower, probability = '
         '1 - cdf(threshold), lower <= estimate <= upper (ordering only for levels > 0.5 when tails = 1, scope S1); '
         'TBRMMDiagnostics.tbrfit on the same totals gives the same estimate and |t_sig| * scale half-width, on a fresh object and on an object that analysed other series (other control series; other treatment series of another length) before and whose caller refills his array after handing it in. '
@@ -122,6 +122,21 @@ def run_case(case):
             if not (len(loc) == len(base[0]) and np.allclose(loc, base[0], rtol=1e-10, atol=1e-8) and np.allclose(scale, base[1], rtol=1e-10) and df_ == base[2]):
                 add('layout-dependence:layout%d' % li, 'layout %s changes the distribution: loc %s vs %s, scale %s vs %s' % (
                     layout, loc.tolist(), base[0].tolist(), scale.tolist(), base[1].tolist()))
+        if li in (0, 9):
+            # the public distribution accessor with every combination of its two arguments (day index x rescale factor)
+            nd_ = len(ref['loc'])
+            for tm in sorted({0, nd_ // 2, nd_ - 1, -1}):
+                for rs in (1.0, 0.25, 3.0):
+                    try:
+                        dd = m.causal_cumulative_distribution(time=tm, rescale=rs)
+                        got = (float(dd.kwds['loc']), float(dd.kwds['scale']), dd.args[0])
+                    except Exception as e:
+                        add('distribution-raises-' + type(e).__name__, 'time=%r rescale=%r: %s' % (tm, rs, str(e)[:100]))
+                        continue
+                    exp = (rs * ref['loc'][tm], rs * ref['scale'][tm], ref['df'])
+                    if not (math.isclose(got[0], exp[0], rel_tol=1e-9, abs_tol=1e-7) and math.isclose(got[1], exp[1], rel_tol=1e-9) and got[2] == exp[2]):
+                        add('distribution-time-rescale', 'causal_cumulative_distribution(time=%r, rescale=%r) = (loc %r, scale %r, df %r), closed form (%r, %r, %r)' % (
+                            (tm, rs) + got + exp))
         if li in (0, 6, 10):
             for s in tier_settings:
                 try:
